@@ -1261,6 +1261,8 @@ def _color_to_rgba(color, alpha_float=True):
         if is_valid:
             return tuple(res)
         raise ValueError(f'Unsupported color "{color}"')
+    if not isinstance(color, str):
+        raise ValueError(f'Unsupported color "{color}"')
     try:
         return _NAME2RGB[color.lower()] + alpha_channel
     except KeyError:
